@@ -99,6 +99,25 @@ pub fn c08(t: &dyn TypeOps, cx: &mut Cx) {
         if file != bytes { cx.violate("stored-file-differs-from-serialize", json!({"value": vdesc(i, &want), "file_len": file.len(), "serialize_len": bytes.len()})); continue; }
         let flen = file.len();
         cx.count(&format!("file_len_mod64_{:02}", flen % 64), 1);
+        // the same file reached through a symbolic link (relative target, longer and shorter
+        // than the file): every loader sees the file, not the link
+        if vi == 0 {
+            for (tag, target) in [("short", std::path::Path::new(&path).file_name().unwrap().to_string_lossy().to_string()), ("long", format!("{}{}", "./".repeat(120), std::path::Path::new(&path).file_name().unwrap().to_string_lossy()))] {
+                let link = format!("{}.{}.lnk", path, tag);
+                let _ = std::fs::remove_file(&link);
+                if std::os::unix::fs::symlink(&target, &link).is_err() { continue; }
+                for loader in 0..4u8 {
+                    cx.evals += 1;
+                    cx.transitions += 1;
+                    match t.load_history(loader, &link, 0, &[]) {
+                        Out::Ok(o) if o[0].val == expect => cx.outcome("through-symlink-ok"),
+                        Out::Ok(_) => cx.violate(&format!("{}-through-symbolic-link-value-differs", LOADERS[loader as usize]), json!({"value": vdesc(i, &want), "link_target_len": target.len(), "file_len": flen})),
+                        o => cx.violate(&format!("{}-through-symbolic-link-{}", LOADERS[loader as usize], o.class()), json!({"value": vdesc(i, &want), "link_target_len": target.len(), "file_len": flen, "observed": o.describe()})),
+                    }
+                }
+                let _ = std::fs::remove_file(&link);
+            }
+        }
         let mut hs: Vec<Vec<u8>> = vec![vec![], vec![0, 1, 2, 3, 4, 5]];
         if simple && vi == 0 { hs = histories(cx.tier.pick(2, 3)); hs.push(vec![0, 1, 2, 3, 4, 5]); }
         for loader in 0..5u8 {
